@@ -106,6 +106,38 @@ def _check_ext(case) -> list[Fail]:
     return f
 
 
+def check_readd(case) -> list[Fail]:
+    """Definitions held by an extension name *that* extension and report it as owner, also when
+    the definition objects were first added to another extension (multi-step history)."""
+    from hugr.ext import Extension
+
+    a, b = case["ext"], case["other"]
+    ea = extgen.mk_extension(a)
+    eb = extgen.mk_extension(dict(b, types=[], ops=[], values=[]))
+    f: list[Fail] = []
+    for od in list(ea.operations.values()):
+        eb.add_op_def(od)
+    for td in list(ea.types.values()):
+        eb.add_type_def(td)
+    for name, od in eb.operations.items():
+        if od.get_extension() is not eb:
+            f.append(Fail("owner", "re-added-opdef-owner", name))
+        pf = od.signature.poly_func
+        if pf is not None and eb.name not in pf.body.runtime_reqs:
+            f.append(Fail("owner", "re-added-opdef-reqs", f"{name}: {pf.body.runtime_reqs} lacks {eb.name}"))
+    for name, td in eb.types.items():
+        if td.get_extension() is not eb:
+            f.append(Fail("owner", "re-added-typedef-owner", name))
+    try:
+        j1 = eb.to_json()
+        e2 = Extension.from_json(j1)
+        if json.loads(e2.to_json()) != json.loads(j1):
+            f.append(Fail("fixed-point", "re-added-definitions", ""))
+    except Exception as ex:  # noqa: BLE001
+        f.append(exc_fail("load", ex))
+    return f
+
+
 # ------------------------------------------------------------------ bundled std extensions
 
 STD_FILES = [
@@ -318,6 +350,8 @@ def cls_ext(case):
 
 SUBS = [
     Sub("generated", check_ext, strategy=lambda tier: extgen.extensions().map(lambda e: {"ext": e}), nontrivial=nt_ext, classes=cls_ext, n_quick=400, n_thorough=3000),
+    Sub("re-added", check_readd, strategy=lambda tier: st.tuples(extgen.extensions(min_ops=1), extgen.extensions()).filter(lambda t: t[0]["name"] != t[1]["name"]).map(lambda t: {"ext": t[0], "other": t[1]}),
+        nontrivial=lambda c: any(o["params"] is not None for o in c["ext"]["ops"]), n_quick=150, n_thorough=800),
     Sub("bundled", check_bundled, enumerate=enum_bundled, nontrivial=lambda c: True, exhaustive=True, shardable=False),
     Sub("helpers", check_helper, enumerate=enum_helpers, nontrivial=lambda c: True, exhaustive=True, shardable=False),
 ]
